@@ -53,6 +53,8 @@ op_sig(json_t *args)
     json_t *sig = hx_tmpl(args, "sig");
     bool ok = jose_jws_sig(NULL, jws, sig, hx_arg(args, "jwk"));
     json_t *res = json_pack("{s:b}", "ok", ok);
+    if (!hx_tmpl_refs_ok(sig, jws, "signatures"))
+        json_object_set_new(res, "refs_changed", json_true());
     if (ok && jws)
         json_object_set(res, "jws", jws);
     json_decref(jws);
